@@ -202,7 +202,10 @@ pub fn run_c09_live(rep: &mut Report, thorough: bool) {
     let ntargets = if thorough { 12 } else { 2 };
     let per_target = if thorough { 40 } else { 20 };
     for ti in 0..ntargets {
-        let cfg = TargetCfg { sentinels: 1 + ti % 3, max_spinners: 0, heartbeats: 0, sleepers: 0, exiters: 0, names: true, regions: 2, elf_files: 0, fds: 2, stack_pages_max: 2, null_sp_threads: 0, big_region_pages: 0 };
+        // the last target has more threads than a size limit keeps at full length (the writer takes
+        // other paths then: shortened stacks, the "limited" bookkeeping)
+        let many = ti == ntargets - 1;
+        let cfg = TargetCfg { sentinels: if many { 26 } else { 1 + ti % 3 }, max_spinners: 0, heartbeats: 0, sleepers: 0, exiters: 0, names: true, regions: 2, elf_files: 0, fds: 2, stack_pages_max: if many { 3 } else { 2 }, null_sp_threads: 0, big_region_pages: 0 };
         let sc = match scen::build_target(&mut rng, &cfg) {
             Ok(s) => s,
             Err(e) => {
@@ -211,7 +214,11 @@ pub fn run_c09_live(rep: &mut Report, thorough: bool) {
             }
         };
         for k in 0..per_target {
-            let knobs = OptKnobs::from_bits(rng.below(128) as u32, &mut rng);
+            let mut knobs = OptKnobs::from_bits(rng.below(128) as u32, &mut rng);
+            if many && k % 2 == 0 {
+                knobs.limit = 1 + (k as u8 / 2) % 2; // tiny / around the estimate
+                rep.count("live_dumps_many_threads_with_size_limit", 1);
+            }
             let o = scen::random_opts(&mut rng, &sc, &knobs);
             let start: u64 = *rng.pick(&[0u64, 1, 7, 4095, 4096, 1_000_000]);
             let init_len = match rng.below(3) {
